@@ -12,6 +12,7 @@ import re
 from ..gen import tlbvals as V
 from .. import tracetlb as TR
 from .. import tlbsrc as SRC
+from .. import tlbsrc_tx as SRCTX
 
 SPEC = dict(
     manifest=dict(
@@ -57,22 +58,33 @@ SPEC = dict(
              'StorageInfo, AccountStatus, StateInit, AccountState, ExtBlkRef, BlkMasterInfo, BlkPrevInfo (0/1), KeyExtBlkRef, KeyMaxLt, Counters, '
              'CreatorStats, ValidatorInfo, ShardIdent, GlobalVersion, SplitMergeInfo, SigPubKey, AccStatusChange, ComputeSkipReason, '
              'TrStoragePhase, TrComputePhase, TrBouncePhase, FutureSplitMerge, IntermediateAddress, ValidatorDescr, CatchainConfig. '
-             'All other classes (dictionary-, address- and recursion-using parsers, TrActionPhase, BlockInfo) remain tied by the sampled and '
+             'SOURCE TIE, second part (tlb/transaction.py; harness/translate/tlbparsers_tx.py -> Generated/TlbParsersTx.lean, views '
+             'Spec/Tlb/PyViewTx.lean): 23 more classes regenerated and proved the same way: CurrencyCollection and ExtraCurrencyCollection '
+             '(load_dict with the dictionary walk proved to return the entries of the decoded HashmapE value), TrActionPhase, TrCreditPhase, '
+             'ImportFees, InternalMsgInfo, ExternalMsgInfo, ExternalOutMsgInfo, CommonMsgInfo, MessageAny (value; also through a reference), '
+             'MsgMetadata, MsgEnvelope (both versions), the seven TransactionDescr classes and the TransactionDescr dispatch, Transaction '
+             '(for EVERY nesting budget of prepare_transaction:^Transaction; out_msgs dictionary included), InMsg (9 constructors), OutMsg '
+             '(10). Types that contain a MsgAddressInt carry the hypothesis that no addr_var address occurs in the value (load_address has '
+             'none). load_address itself and the dictionary walk are hand models (Model/TlbRdTx.lean) proved against the spec '
+             '(c16_model_load_address_*, c16_model_dict_walk) and validated against the library every run. '
+             'All other classes (account.py / block.py / config.py parsers with dictionaries, BlockInfo) remain tied by the sampled and '
              'read-trace layers only.',
         level_note='Theorems are about the Lean spec codec pair (the independent implementation of the schema), for all values. '
                    'For the 29 classes of the SOURCE TIE the parser is regenerated from the source and proved (trusted there: the '
                    'hand model of the Slice methods Model/TlbRd.lean and the translator, both validated every run against the real '
-                   'deserialize on generated cells, and the declared views). The other Python parsers are NOT translated: they are tied by differential testing against the spec encoder on '
+                   'deserialize on generated cells, and the declared views); likewise for the 23 classes of the second part (trusted in addition: '
+                   'Model/TlbRdTx.lean = load_address, load_dict with its Patricia walk, the optional / via-reference combinators; the Transaction '
+                   'cell= bookkeeping argument is not part of the statement). The other Python parsers are NOT translated: they are tied by differential testing against the spec encoder on '
                    'generated values (every constructor, optional-field combination, boundary and random field values), on '
                    'the bundled block, and by agreement of the typed read sequence on every path of the schema (path-complete / '
                    'local path-complete lists in the text) — a parser branching on a field VALUE the schema does not branch on is '
                    'outside that enumeration. Trusted: transcription of block.tlb into Spec/Tlb/Block.lean, the attribute table in '
                    'harness/props/C16.py, harness/tracetlb.py (recording slice, trace alignment), the driver and cell construction.',
         technique='Lean 4 proof (lawful codec combinators, laws composed by type-class resolution; 29 parser classes regenerated from '
-                  'source and proved to refine the spec decoder) + differential '
+                  'source and proved to refine the spec decoder, + 23 classes of tlb/transaction.py incl. Transaction for every nesting budget) + differential '
                   'encoder->parser correspondence with the library + path-complete read-trace comparison (recording slice vs '
                   'proved spec trace)'),
-    translators=SRC.translator_entries(),
+    translators=SRC.translator_entries() + SRCTX.translator_entries(),
     design_ref='DESIGN.md §6 C16',
     rule='for every covered type: values generated by the Lean codec generators (every constructor alternative and Maybe/Either '
          'choice at random, integer fields from {0, 1, max, top bit, random}, random bit strings, random small Patricia trees) '
@@ -80,6 +92,7 @@ SPEC = dict(
          '(tlbpaths full / loc, cap 300 quick, 3000 thorough; a path = its index in the fixed enumeration order); '
          'distinct = distinct (type, seed) / (type, mode, seed, path index); non-trivial = encodable',
     trusted_base=['Model/TlbRd.lean (meaning of the Slice methods), harness/translate/tlbparsers.py, Spec/Tlb/PyView.lean (declared views) for the c16_src_* theorems',
+                  'Model/TlbRdTx.lean (load_address, load_dict + dictionary walk, optional / viaRef), harness/translate/tlbparsers_tx.py, Spec/Tlb/PyViewTx.lean for the c16_src_* theorems of tlb/transaction.py',
                   'Spec/Tlb/Block.lean transcribes block.tlb (+ upstream constructors the parsers read) by hand',
                   'harness/props/C16.py READERS: library attribute <-> schema field table', 'harness/gen/tlbvals.py flattening of spec trees',
                   'Drv/Tlb.lean value printing and DAG emission; harness/gen/cells.lib_build',
@@ -883,9 +896,11 @@ def run(ctx):
     # source tie: c16_src_* evaluated on generated values (search mode: the values on which a broken obligation is false go to
     # the oracle first), then translator validation (regenerated Lean reader vs the real deserialize on the same cells)
     SRC.theorem_check(ctx, check_value, P)
+    SRCTX.theorem_check(ctx, check_value, P)
     if ctx.search and ctx.failures:
         return        # a broken c16_src_* obligation already has its concrete failing input
     SRC.validate(ctx)
+    SRCTX.validate(ctx)
     late = ['TransactionDescr', 'Transaction', 'MsgEnvelope', 'InMsg', 'OutMsg', 'AccountBlock', 'InMsgDescr', 'OutMsgDescr', 'ShardAccountBlocks',
             'McBlockExtra', 'McStateExtra', 'BlockExtra', 'Block', 'ShardStateUnsplit', 'ShardState']
     order = sorted(t for t in P if t not in late) + late
